@@ -92,6 +92,24 @@ prop("C10", "TestC10", "exploration",
      "width 1..40 (thorough 200), 1..6 records; non-trivial = a row with >= 2 ambiguity ranges and >= 1 SNP; distinct = hash of the case",
      q, t, required_labels=["range-at-start", "range-at-end", "all-ambiguous", "ranges-one-base-apart", "range-length-1"])
 
+q, t = tiers(4, 4000, 16, 40000, floor_q=1000, floor_t=10000)
+t["fuzz"] = dict(target="FuzzC16", seconds=120)
+t["timeout"] = 1800
+prop("C16", "TestC16", "exploration",
+     "(a) a record model rendered under random layouts (line width, letter case, CRLF, final newline) must be returned identically by the "
+     "streaming, list, scoring and plain-text readers (ID, description, upper-cased sequence, index; score and A/C/G/T counts from the "
+     "model); (b) blank-line layouts and structured corruptions (byte/line deletion, duplication, insertion of hostile bytes, truncation, "
+     "lone or ID-less headers, CR without LF, shortened records, missing first header, empty input, a 1 MiB+1 line) are classified by a "
+     "specification-level parser into must-accept / must-reject / free, and every reader is called synchronously inside recover() with "
+     "buffered channels so that a panic or a hang is a captured violation; readers must agree with each other; variants.findReference is "
+     "reached through variants.Variants on the same bytes; (c) thorough adds 120 s of native coverage-guided fuzzing of arbitrary bytes "
+     "through the same oracle, seeded with the hostile constants.",
+     "Plain-text reader is not required to reject non-IUPAC symbols; blank lines, ID-less headers, all-empty records and over-long lines may be accepted or rejected but must not crash.",
+     "property-based testing (rapid) with structured mutation + native coverage-guided fuzzing (go test -fuzz), specification-parser oracle and differential agreement between readers",
+     "non-trivial: layout cases combining >= 2 of {wrapped, lower case, CRLF, no final newline, blank line}; corrupted cases with >= 2 records "
+     "or a must-reject verdict; distinct = hash of the byte stream + kind",
+     q, t, required_labels=["kind:layout", "kind:blank", "kind:corrupt", "spec:accept", "spec:reject", "spec:free"])
+
 NOT_CLAIMED = {}
 
 
